@@ -76,7 +76,9 @@ PRELUDE_PLAIN = """\
 import enum
 from dataclasses import dataclass, field
 from pathlib import Path
-from typing import Any, ClassVar, Literal, Optional, Union, Tuple, NewType, Sequence, Mapping, FrozenSet, List, Dict, Set
+from typing import Annotated, Any, ClassVar, Literal, Optional, Union, Tuple, NewType, Sequence, Mapping, FrozenSet, List, Dict, Set
+from abc import ABC
+from decimal import Decimal
 from pyoak.node import ASTNode
 from pyoak.origin import CodeOrigin, NO_ORIGIN
 from pyoak.origin import Origin
@@ -392,6 +394,32 @@ def core_specs(P: str = "U", variant: int = 0) -> list[CS]:
             body="    def __len__(self):\n        return len(self.elems)\n\n    def __iter__(self):\n        return iter(self.elems)\n\n    def __contains__(self, x):\n        return any(x is e for e in self.elems)\n",
         ),
         CS(f"{P}Hold", (E,), F(FS("blk", "child", f"{P}Coll", "one", (f"{P}Coll",)), FS("alt", "child", f"{P}Coll | None", "opt", (f"{P}Coll",), default="None"))),
+        # an abstract base node class (abc.ABC: another metaclass) and a concrete subclass
+        CS(f"{P}Abstract", (E, "ABC"), F(FS("label", "prop", "str", "str", default='""')), abstract=True),
+        CS(f"{P}Concrete", (f"{P}Abstract",), F(FS("kid", "child", f"{P}Abstract | {E} | None", "opt", (E,), default="None"))),
+        # typing.Annotated around child and property annotations (also around a quoted reference)
+        CS(
+            f"{P}Annot",
+            (E,),
+            F(
+                FS("a", "child", f'Annotated["{E} | None", "doc"]', "opt", (E,), default="None"),
+                FS("b", "child", f'Annotated[tuple[{E}, ...], "doc"]', "tuple", (E,), default="()"),
+                FS("c", "prop", 'Annotated[int, "doc"]', "int", default="0"),
+                FS("d", "child", f'Annotated[Optional["{E}"], "doc", 5]', "opt", (E,), default="None"),
+            ),
+        ),
+        # properties derived in __post_init__ (init=False): from the children, and from a non-comparable property
+        CS(
+            f"{P}Count",
+            (E,),
+            F(
+                FS("items", "child", f"tuple[{E}, ...]", "tuple", (E,), default="()"),
+                FS("doc", "prop", "str", "str", compare=False, default='""'),
+                FS("n", "prop", "int", "derived", init=False, default="0"),
+                FS("has_doc", "prop", "bool", "derived", init=False, compare=False, default="False"),
+            ),
+            body="    def __post_init__(self):\n        object.__setattr__(self, 'n', len(self.items))\n        object.__setattr__(self, 'has_doc', bool(self.doc))\n        super().__post_init__()\n",
+        ),
         # nested tuple values (where the nesting opens and closes is part of the value)
         CS(f"{P}Nested", (E,), F(FS("tt", "prop", "tuple[Any, ...]", "nested", default="()"), FS("kid", "child", f"{E} | None", "opt", (E,), default="None"))),
         # field names that are also names of parameters / locals inside the library
